@@ -22,11 +22,15 @@ PROP = {
             "2- and 3-way joins of every type with equi / theta / one-sided ON conjuncts and one-sided WHERE conjuncts, "
             "aggregates, DISTINCT, ORDER BY, LIMIT). The harness builds the database twice (indexes before the data / indexes "
             "created at the `mkix` op) and runs every query (a) as written, (b) with every indexed integer column wrapped as "
-            "(col + 0), (c) with the join operands permuted (LEFT<->RIGHT, ON conjuncts reordered and redistributed), (e) on the "
-            "late-index database, (d) again after ANALYZE; DML runs on both databases. All forms must give the same canonical "
+            "(col + 0), (c) with the join operands permuted (LEFT<->RIGHT, ON conjuncts reordered and redistributed), (f) with every "
+            "table replaced by a derived table over its permuted columns, part of a single-table WHERE moved inside (filter over "
+            "projection over filter: push-down through projections, filter merge), (e) on the late-index database, (d) again after "
+            "ANALYZE; DML runs on both databases. All forms must give the same canonical "
             "result and that result must equal the Lean reference evaluator's (`same <result>`). Database::explain of every form "
             "is recorded; tags m.pairs* / m.differ* count the compared pairs and the pairs whose plan shapes differ, m.uses.* "
-            "the forms answered through an index scan / each join operator (measured on the real planner at generation time). "
+            "the forms answered through an index scan / each join operator (measured on the real planner at generation time, in "
+            "supervised children). Cases tagged reg.* (at most 22 %, each with exactly one such tag) enter the region of one listed "
+            "finding; the others avoid all of them by construction. "
             "Every case is non-trivial; distinct = distinct case line.",
     "assumptions": [
         "indexed columns hold distinct non-NULL values (every index of the engine is a unique index; duplicates and NULLs in "
